@@ -145,6 +145,15 @@ CHECKS["C20"] = dict(
     parts=[rapid_part("rapid", "compose", "TestC20", 6000, 60000, replay_test="TestC20Replay")],
 )
 
+CHECKS["C07"] = dict(
+    technique="property-based testing (rapid) over typed construction sequences with dynamic values; oracle = reference walk of dynamic types (assignability via reflect) with violations reported only on dynamic evidence",
+    level_text="Generated pipelines over a universe of 9 types (string, int, struct, pointer, map, slice, any, fmt.Stringer, a user interface; the pointer implements both interfaces, the struct one) with lambdas of every (in,out) pair, pass-through nodes typed by inference (one or several hops), typed branch conditions (also on START and on pass-through nodes), typed state pre-handlers, connections added in a generated order, roughly half of the cases containing a deliberate mismatch, and dynamic values of every type for interface-typed positions. If Add*/Compile accept the graph it is run (Invoke or Stream): the run must succeed exactly when every dynamic value is assignable to the position it reaches; a failure at a position whose producer is declared with a concrete type is an unsound acceptance; a mismatch behind an interface-typed producer must surface as an ordinary error, not a recovered panic; nothing may panic out of the run.",
+    level_note="Violations are only reported with dynamic evidence (a run that fails or panics), so a reference that is stricter than the framework's static rules cannot raise an alarm. nil interface values are judged by a separate signature.",
+    rule="rapid draws graph types, 1-6 nodes (lambda / pass-through), optional branches and pre-handlers, an order for the Add* calls, dynamic values and the calling form; non-trivial = the graph compiled and contains a pass-through typed by inference or a may-assignable connection exercised by a value; distinct = FNV-1a of case JSON",
+    assumptions=["reflect.Type.AssignableTo is the meaning of 'assignable'"],
+    parts=[rapid_part("rapid", "compose", "TestC07", 8000, 80000, replay_test="TestC07Replay")],
+)
+
 # properties not claimed (with reason); everything else not in CHECKS is "not built yet"
 NOT_APPLICABLE = {}
 
